@@ -8,6 +8,7 @@ freedom from conflicts under all interleavings.
 from __future__ import annotations
 
 import ast
+import copy
 
 from sa import norm
 from sa.errors import AnalysisError
@@ -51,31 +52,65 @@ def counts(repo: Repo, chk: Check) -> None:
         floor=8,
     )
     n1 = f"{p}.nb_stages - 1"
+    # locals standing for parts of the pipeline (`stages = pipeline.stages`, `depth = len(stages) - 1`) are read as what they stand for;
+    # `len(p.stages)` is `p.nb_stages` as long as the dialect defines the property that way
+    try:
+        nb = repo.func("snaxc/dialects/pipeline.py", "PipelineOp.nb_stages")
+    except Exception:  # noqa: BLE001
+        nb = None
+    rets_nb = [x for x in ast.walk(nb.node) if isinstance(x, ast.Return)] if nb is not None else []
+    len_is_nb = len(rets_nb) == 1 and rets_nb[0].value is not None and norm.match(T("len(self.stages)"), rets_nb[0].value) is not None
+
+    class _Std(ast.NodeTransformer):
+        def __init__(self, env: dict[str, ast.expr], keep: set[str]):
+            self.env, self.keep = env, keep
+
+        def visit_Name(self, n: ast.Name) -> ast.AST:
+            if isinstance(n.ctx, ast.Load) and n.id in self.env and n.id not in self.keep and n.id != p:
+                v_ = norm.primary(self.env[n.id])
+                if p in {x.id for x in ast.walk(v_) if isinstance(x, ast.Name)} and not any(isinstance(x, ast.Call) and callee_name(x) not in ("len",) for x in ast.walk(v_)):
+                    return self.visit(ast.copy_location(copy.deepcopy(v_), n))
+            return n
+
+        def visit_Call(self, n: ast.Call) -> ast.AST:
+            self.generic_visit(n)
+            m_ = norm.match(T("len($q.stages)"), n)
+            if len_is_nb and m_ is not None and isinstance(m_["q"], ast.Name) and m_["q"].id == p:
+                return ast.copy_location(ast.Attribute(ast.Name(p, ast.Load()), "nb_stages", ast.Load()), n)
+            return n
+
+    def std(site: Site, node):
+        stored = {x.id for x in ast.walk(node) if isinstance(x, ast.Name) and isinstance(x.ctx, ast.Store)}
+        out_ = _Std(site.env, stored).visit(copy.deepcopy(node))
+        ast.fix_missing_locations(out_)
+        return out_
+
     outer = [s for s in fl.stmts(ast.For) if s.reachable and not s.loops]
     pro = epi = clones = None
+    pn = en = cn = None
     for s in outer:
-        it = s.node.iter
+        sn = std(s, s.node)
         has_before = any(isinstance(x, ast.Call) and "InsertPoint.before" in ast.unparse(x) for x in ast.walk(s.node))
         has_after = any(isinstance(x, ast.Call) and "InsertPoint.after" in ast.unparse(x) for x in ast.walk(s.node))
-        stages = any(isinstance(x, ast.Attribute) and x.attr == "stages" for x in ast.walk(s.node))
+        stages = any(isinstance(x, ast.Attribute) and x.attr == "stages" for x in ast.walk(sn))
         if stages and has_before and pro is None:
-            pro = s
+            pro, pn = s, sn
         elif stages and has_after:
-            epi = s
+            epi, en = s, sn
         elif any(isinstance(x, ast.Call) and callee_name(x) == "SubiOp" for x in ast.walk(s.node)) and not stages:
-            clones = s
-    if pro is None or epi is None or clones is None:
+            clones, cn = s, sn
+    if pro is None or epi is None or clones is None or pn is None or en is None or cn is None:
         raise AnalysisError(f"{f.where}: prologue / epilogue / index-clone loops not identified")
-    chk.result(norm.match(T(f"range({n1})"), pro.node.iter) is not None, "C15.counts", f"{f.key}:prologue-length", pro.where(),
-               "prologue has nb_stages - 1 steps", f"prologue iterates {ast.unparse(pro.node.iter)}; expected range(nb_stages - 1)")
-    chk.result(norm.match(T(f"range({n1})"), epi.node.iter) is not None, "C15.counts", f"{f.key}:epilogue-length", epi.where(),
-               "epilogue has nb_stages - 1 steps", f"epilogue iterates {ast.unparse(epi.node.iter)}; expected range(nb_stages - 1)")
-    chk.result(norm.match(T(f"range(1, {p}.nb_stages)"), clones.node.iter) is not None, "C15.counts", f"{f.key}:clone-count", clones.where(),
-               "index clones exist for stages 1..nb_stages-1", f"index clones iterate {ast.unparse(clones.node.iter)}; expected range(1, nb_stages)")
+    chk.result(norm.match(T(f"range({n1})"), pn.iter) is not None, "C15.counts", f"{f.key}:prologue-length", pro.where(),
+               "prologue has nb_stages - 1 steps", f"prologue iterates {ast.unparse(pn.iter)}; expected range(nb_stages - 1)")
+    chk.result(norm.match(T(f"range({n1})"), en.iter) is not None, "C15.counts", f"{f.key}:epilogue-length", epi.where(),
+               "epilogue has nb_stages - 1 steps", f"epilogue iterates {ast.unparse(en.iter)}; expected range(nb_stages - 1)")
+    chk.result(norm.match(T(f"range(1, {p}.nb_stages)"), cn.iter) is not None, "C15.counts", f"{f.key}:clone-count", clones.where(),
+               "index clones exist for stages 1..nb_stages-1", f"index clones iterate {ast.unparse(cn.iter)}; expected range(1, nb_stages)")
     shift = [s for s in fl.calls("from_int_and_width") if s.reachable and not s.loops and s.node.args]
     ok_shift = False
     for s in shift:
-        if norm.match(T(n1), s.node.args[0]) is not None:
+        if norm.match(T(n1), std(s, s.node.args[0])) is not None:
             var = s.stmt.targets[0].id if isinstance(s.stmt, ast.Assign) and isinstance(s.stmt.targets[0], ast.Name) else None
             for r in fl.calls("replace_uses_with_if", "replace_all_uses_with"):
                 if var and ast.unparse(r.node.args[0]) == f"{var}.result" and "lb" in ast.unparse(r.node.func.value):  # type: ignore[attr-defined]
@@ -83,8 +118,20 @@ def counts(repo: Repo, chk: Check) -> None:
     chk.result(ok_shift, "C15.counts", f"{f.key}:lb-shift", f.where, "the steady-state loop starts at nb_stages - 1 (the loop's lb use is redirected to that constant)",
                "the lower bound of the steady-state loop is not shifted by nb_stages - 1")
     # prologue inner structure
-    iv = pro.node.target.id if isinstance(pro.node.target, ast.Name) else "i"
-    inner = [n for n in pro.node.body if isinstance(n, ast.For)]
+    iv = pn.target.id if isinstance(pn.target, ast.Name) else "i"
+    inner = [n for n in pn.body if isinstance(n, ast.For)]
+
+    def _readable(loops_: list, where_: str) -> None:
+        # stage/iteration pairing is read from `for j in range(..)` / `reversed(range(..))` and subscripts by j; a pairing by zip of slices
+        # needs the lengths of the lists, which this rule does not track
+        for n_ in loops_:
+            it_ = n_.iter
+            if norm.match(T("reversed($r)"), it_) is not None:
+                it_ = norm.match(T("reversed($r)"), it_)["r"]
+            if not (isinstance(it_, ast.Call) and callee_name(it_) == "range"):
+                raise AnalysisError(f"{where_}: stages and iterations are paired by `{ast.unparse(n_.iter)[:80]}`, a form this rule does not read")
+
+    _readable(inner, pro.where())
     okp = False
     for n in inner:
         if norm.match(T("range($i + 1)"), n.iter, {"i": iv}) is not None and isinstance(n.target, ast.Name):
@@ -92,10 +139,11 @@ def counts(repo: Repo, chk: Check) -> None:
             okp = norm.contains(n, T(f"{p}.stages[{j}].clone()")) and norm.contains(n, T(f"$tbl[{iv} - {j}]"))
     chk.result(okp, "C15.counts", f"{f.key}:prologue-stages", pro.where(), "prologue step i runs stage j (j <= i) on the index clone of iteration i - j",
                "prologue step i does not run stages [j] for j in range(i + 1) with the index clone i - j")
-    okc = any(norm.match(T("arith.ConstantOp.from_int_and_width($i, $_)"), x, {"i": iv}) is not None for x in ast.walk(pro.node) if isinstance(x, ast.Call))
+    okc = any(norm.match(T("arith.ConstantOp.from_int_and_width($i, $_)"), x, {"i": iv}) is not None for x in ast.walk(pn) if isinstance(x, ast.Call))
     chk.result(okc, "C15.counts", f"{f.key}:prologue-index", pro.where(), "prologue step i evaluates the index computation at the constant i")
-    ie = epi.node.target.id if isinstance(epi.node.target, ast.Name) else "i"
-    inner = [n for n in epi.node.body if isinstance(n, ast.For)]
+    ie = en.target.id if isinstance(en.target, ast.Name) else "i"
+    inner = [n for n in en.body if isinstance(n, ast.For)]
+    _readable(inner, epi.where())
     oke = False
     for n in inner:
         if norm.match(T("reversed(range($i + 1))"), n.iter, {"i": ie}) is not None and isinstance(n.target, ast.Name):
@@ -104,18 +152,18 @@ def counts(repo: Repo, chk: Check) -> None:
     chk.result(oke, "C15.counts", f"{f.key}:epilogue-stages", epi.where(), "epilogue step i runs the last i+1 stages, earliest remaining stage first",
                "epilogue step i does not run stages [-j-1] for j in reversed(range(i + 1)) with the index clone i - j")
     okes = False
-    for x in ast.walk(epi.node):
+    for x in ast.walk(en):
         if isinstance(x, ast.Call) and callee_name(x) == "SubiOp" and len(x.args) == 2 and ast.unparse(x.args[0]).endswith(".ub"):
-            okes = any(norm.match(T("arith.ConstantOp.from_int_and_width($i + 1, $_)"), y, {"i": ie}) is not None for y in ast.walk(epi.node) if isinstance(y, ast.Call))
+            okes = any(norm.match(T("arith.ConstantOp.from_int_and_width($i + 1, $_)"), y, {"i": ie}) is not None for y in ast.walk(en) if isinstance(y, ast.Call))
     chk.result(okes, "C15.counts", f"{f.key}:epilogue-index", epi.where(), "epilogue step i evaluates the index computation at ub - (i + 1)",
                "epilogue index is not ub - (i + 1)")
     # ---- barriers
     chk.rule("C15.barriers", "each prologue group, each epilogue group and the steady-state body end with a ClusterSyncOp", floor=3)
-    last_p = pro.node.body[-1]
+    last_p = pn.body[-1]
     chk.result("ClusterSyncOp()" in ast.unparse(last_p) and "InsertPoint.before" in ast.unparse(last_p), "C15.barriers", f"{f.key}:prologue", pro.where(),
                "every prologue group is closed by a barrier before the loop", "a prologue group is not closed by a cluster barrier")
-    sync_i = next((i for i, st in enumerate(epi.node.body) if "ClusterSyncOp()" in ast.unparse(st)), None)
-    inner_i = next((i for i, st in enumerate(epi.node.body) if isinstance(st, ast.For)), None)
+    sync_i = next((i for i, st in enumerate(en.body) if "ClusterSyncOp()" in ast.unparse(st)), None)
+    inner_i = next((i for i, st in enumerate(en.body) if isinstance(st, ast.For)), None)
     chk.result(sync_i is not None and inner_i is not None and sync_i > inner_i, "C15.barriers", f"{f.key}:epilogue", epi.where(),
                "every epilogue group is closed by a barrier", "an epilogue group is not closed by a cluster barrier")
     steady = [s for s in fl.calls("insert_op") if s.reachable and not s.loops and "ClusterSyncOp()" in ast.unparse(s.node) and f"InsertPoint.at_end({p}.body.block)" in ast.unparse(s.node)]
@@ -123,15 +171,15 @@ def counts(repo: Repo, chk: Check) -> None:
                "the steady-state body ends with a barrier", "the steady-state loop body no longer ends with a cluster barrier")
     # ---- index shift inside the loop
     chk.rule("C15.index-shift", "stage k's uses of the index results are redirected to the clone computing index - k", floor=2)
-    ci = clones.node.target.id if isinstance(clones.node.target, ast.Name) else "i"
-    src = ast.unparse(clones.node)
-    ok_sub = any(isinstance(x, ast.Call) and callee_name(x) == "SubiOp" and ast.unparse(x.args[0]).endswith(".input") for x in ast.walk(clones.node)) and \
-        any(norm.match(T("arith.ConstantOp.from_int_and_width($i, $_)"), x, {"i": ci}) is not None for x in ast.walk(clones.node) if isinstance(x, ast.Call))
+    ci = cn.target.id if isinstance(cn.target, ast.Name) else "i"
+    src = ast.unparse(cn)
+    ok_sub = any(isinstance(x, ast.Call) and callee_name(x) == "SubiOp" and ast.unparse(x.args[0]).endswith(".input") for x in ast.walk(cn)) and \
+        any(norm.match(T("arith.ConstantOp.from_int_and_width($i, $_)"), x, {"i": ci}) is not None for x in ast.walk(cn) if isinstance(x, ast.Call))
     chk.result(ok_sub, "C15.index-shift", f"{f.key}:minus-k", clones.where(), "clone k computes index - k", "index clone k does not compute `index - k`")
     ok_pred = any(
         isinstance(x, ast.Compare) and len(x.ops) == 1 and isinstance(x.ops[0], ast.Eq)
         and ast.unparse(x.left).endswith(".index.value.data") and ast.unparse(x.comparators[0]) == ci
-        for x in ast.walk(clones.node)
+        for x in ast.walk(cn)
     )
     chk.result(ok_pred, "C15.index-shift", f"{f.key}:stage-k", clones.where(), "only uses inside stage k are redirected to clone k",
                "the use-redirection predicate does not select exactly the uses inside stage k")
